@@ -93,6 +93,15 @@ pub(crate) fn build_slot_helper(helper_name: Ident, is_vnode: Ident) -> FnDecl {
     }
 }
 
+/// `Fragment`, or the local name it is usually imported under (`_Fragment`, `_Fragment2`, ...)
+pub(crate) fn is_fragment_name(name: &str) -> bool {
+    name.strip_prefix('_')
+        .unwrap_or(name)
+        .strip_prefix("Fragment")
+        .map(|rest| rest.bytes().all(|b| b.is_ascii_digit()))
+        .unwrap_or_default()
+}
+
 pub(crate) fn jsx_member_to_expr(expr: &JSXMemberExpr) -> Expr {
     Expr::Member(MemberExpr {
         span: DUMMY_SP,
